@@ -226,11 +226,16 @@ func genHubCase(rr *h.Rand, o *gen.Oracle, focus string) hubCase {
 				op.Claims = claimsJSON("subscribe", cl, "")
 			}
 			op.Carrier = h.Pick(rr, []string{"header", "query", "cookie"})
+			op.Head = rr.Chance(1, 7)
 			if !hasFail && op.Claims == "" && rr.Chance(1, 6) {
 				hasDL = true
 				// the connection is torn down under the handler: every SetWriteDeadline fails, from the very first
 				// one (right after registration); no replay, so that its first write attempt comes with a publication
-				op.DeadlineErr = true
+				if rr.Bool() {
+					op.DeadlineErr = true
+				} else {
+					op.FlushErr = true // or every flush fails, from the one that follows the headers
+				}
 			} else if rr.Chance(1, 2) {
 				var id string
 				switch rr.Intn(5) {
